@@ -9,6 +9,7 @@ package internal
 import (
 	"bufio"
 	"fmt"
+	"math"
 	"os"
 	"sort"
 	"strconv"
@@ -116,9 +117,41 @@ func (v *vRun) fail(kind string, ops []vOp, upto int, detail string) {
 	}
 }
 
-// runCase executes ops, writes the case line, evaluates the property predicates.
-// queries: 0 none, 1 all query intervals within [qlo,qhi] after the last step.
+// extreme coordinates: comparisons near the ends of the int range, differences that overflow
+var vPool = []int{math.MinInt, math.MinInt + 1, -(1 << 62), -1, 0, 1, 1 << 62, math.MaxInt - 1, math.MaxInt}
+
+// runCase: queries over all intervals a<=b within [qlo,qhi] after the last step (if queries).
 func (v *vRun) runCase(ops []vOp, queries bool, qlo, qhi int) {
+	if !queries {
+		v.runCaseQ(ops, "", nil)
+		return
+	}
+	var qs []vIv
+	for a := qlo; a <= qhi; a++ {
+		for b := a; b <= qhi; b++ {
+			qs = append(qs, vIv{a, b})
+		}
+	}
+	v.runCaseQ(ops, "Q:"+strconv.Itoa(qlo)+":"+strconv.Itoa(qhi), qs)
+}
+
+// runCasePool: queries over every ordered pair of pool values (valid and inverted query intervals).
+func (v *vRun) runCasePool(ops []vOp, pool []int) {
+	var qs []vIv
+	strs := make([]string, len(pool))
+	for i, a := range pool {
+		strs[i] = strconv.Itoa(a)
+		for _, b := range pool {
+			qs = append(qs, vIv{a, b})
+		}
+	}
+	v.runCaseQ(ops, "P:"+strings.Join(strs, ","), qs)
+}
+
+// runCaseQ executes ops, writes the case line, evaluates the property predicates; qtag names
+// the query set qs for the model side ("" = no queries).
+func (v *vRun) runCaseQ(ops []vOp, qtag string, qs []vIv) {
+	queries := qtag != ""
 	cur := 0
 	defer func() {
 		if r := recover(); r != nil {
@@ -205,48 +238,43 @@ func (v *vRun) runCase(ops []vOp, queries bool, qlo, qhi int) {
 				}
 			}
 		}
-		sb.WriteString(";Q:" + strconv.Itoa(qlo) + ":" + strconv.Itoa(qhi) + ":")
-		for a := qlo; a <= qhi; a++ {
-			for b := a; b <= qhi; b++ {
-				q := vIv{a, b}
-				r := t.Intersects(q)
-				if r {
-					sb.WriteByte('1')
-				} else {
-					sb.WriteByte('0')
+		sb.WriteString(";" + qtag + ":")
+		for _, q := range qs {
+			r := t.Intersects(q)
+			if r {
+				sb.WriteByte('1')
+			} else {
+				sb.WriteByte('0')
+			}
+			if disjoint {
+				bf := false
+				for _, s := range spec {
+					bf = bf || vOverlap(q, s)
 				}
-				if disjoint {
-					bf := false
-					for _, s := range spec {
-						bf = bf || vOverlap(q, s)
-					}
-					if bf != r {
-						v.fail("intersects", ops, len(ops)-1, fmt.Sprintf("Intersects[%d,%d]=%v brute force %v contents %v", a, b, r, bf, spec))
-					}
+				if bf != r {
+					v.fail("intersects", ops, len(ops)-1, fmt.Sprintf("Intersects[%d,%d]=%v brute force %v contents %v", q.lo, q.hi, r, bf, spec))
 				}
 			}
 		}
 		sb.WriteByte(':')
 		stored := t.GetAllIntervals()
 		for _, x := range stored {
-			for a := qlo; a <= qhi; a++ {
-				for b := a; b <= qhi; b++ {
-					r := t.CanUpdateInterval(x, a, b)
-					if r {
-						sb.WriteByte('1')
-					} else {
-						sb.WriteByte('0')
+			for _, q := range qs {
+				r := t.CanUpdateInterval(x, q.lo, q.hi)
+				if r {
+					sb.WriteByte('1')
+				} else {
+					sb.WriteByte('0')
+				}
+				if disjoint {
+					bf := true
+					for _, s := range spec {
+						if s != x && vOverlap(q, s) {
+							bf = false
+						}
 					}
-					if disjoint {
-						bf := true
-						for _, s := range spec {
-							if s != x && vOverlap(vIv{a, b}, s) {
-								bf = false
-							}
-						}
-						if bf != r {
-							v.fail("canupdate", ops, len(ops)-1, fmt.Sprintf("CanUpdateInterval(%v,%d,%d)=%v brute force %v contents %v", x, a, b, r, bf, spec))
-						}
+					if bf != r {
+						v.fail("canupdate", ops, len(ops)-1, fmt.Sprintf("CanUpdateInterval(%v,%d,%d)=%v brute force %v contents %v", x, q.lo, q.hi, r, bf, spec))
 					}
 				}
 			}
@@ -301,6 +329,7 @@ func TestVerifC19(t *testing.T) {
 			ops = append(ops, vOp{p[0][0], lo, hi})
 		}
 		v.runCase(ops, true, -2, 8)
+		v.runCasePool(ops, vPool)
 	} else {
 		// 1. exhaustive small scope: coordinates 0..2 (inverted intervals included), clear
 		var alpha []vOp
@@ -394,6 +423,102 @@ func TestVerifC19(t *testing.T) {
 				v.runCase(ops, false, 0, 0)
 			}
 		}
+		// 4. extreme bounds (ends of the int range, differences that overflow): exhaustive
+		// one- and two-step histories over every (lo,hi) pair of the pool, valid and inverted,
+		// then random short histories and pairwise-disjoint ones; all with pool queries
+		var ext []vOp
+		for _, lo := range vPool {
+			for _, hi := range vPool {
+				ext = append(ext, vOp{'I', lo, hi})
+			}
+		}
+		before := v.cases
+		for _, a := range ext {
+			v.runCasePool([]vOp{a}, vPool)
+			for _, b := range ext {
+				v.runCasePool([]vOp{a, b}, vPool)
+				v.runCasePool([]vOp{a, {'D', b.lo, b.hi}}, vPool)
+			}
+		}
+		v.hist["extreme-exhaustive-cases"] = v.cases - before
+		ne := 1500
+		if thorough {
+			ne = 60000
+		}
+		for c := 0; c < ne; c++ {
+			n := 3 + r.below(12)
+			ops := make([]vOp, 0, n)
+			var live []vIv
+			if c%3 == 0 {
+				// pairwise disjoint: sorted distinct pool points paired up (or single points)
+				perm := make([]int, len(vPool))
+				for i := range perm {
+					perm[i] = i
+				}
+				for i := len(perm) - 1; i > 0; i-- {
+					j := r.below(i + 1)
+					perm[i], perm[j] = perm[j], perm[i]
+				}
+				k := 2 + r.below(len(vPool)-1)
+				idx := append([]int{}, perm[:k]...)
+				sort.Ints(idx)
+				var ivs []vIv
+				for i := 0; i < len(idx); {
+					if i+1 < len(idx) && r.below(3) != 0 {
+						ivs = append(ivs, vIv{vPool[idx[i]], vPool[idx[i+1]]})
+						i += 2
+					} else {
+						ivs = append(ivs, vIv{vPool[idx[i]], vPool[idx[i]]})
+						i++
+					}
+				}
+				for i := len(ivs) - 1; i > 0; i-- {
+					j := r.below(i + 1)
+					ivs[i], ivs[j] = ivs[j], ivs[i]
+				}
+				for _, x := range ivs {
+					ops = append(ops, vOp{'I', x.lo, x.hi})
+					live = append(live, x)
+					switch r.below(6) {
+					case 0:
+						ops = append(ops, vOp{'I', x.hi, x.lo}) // inverted (or the same point again: skip)
+						if x.lo == x.hi {
+							ops = ops[:len(ops)-1]
+						}
+					case 1:
+						k := r.below(len(live))
+						ops = append(ops, vOp{'D', live[k].lo, live[k].hi})
+						live = append(live[:k], live[k+1:]...)
+					}
+				}
+			} else {
+				for i := 0; i < n; i++ {
+					x := r.below(100)
+					switch {
+					case x < 60:
+						lo, hi := vPool[r.below(len(vPool))], vPool[r.below(len(vPool))]
+						if lo > hi && r.below(3) != 0 {
+							lo, hi = hi, lo
+						}
+						ops = append(ops, vOp{'I', lo, hi})
+						if lo <= hi {
+							live = append(live, vIv{lo, hi})
+						}
+					case x < 85 && len(live) > 0:
+						k := r.below(len(live))
+						ops = append(ops, vOp{'D', live[k].lo, live[k].hi})
+						live = append(live[:k], live[k+1:]...)
+					case x < 97:
+						ops = append(ops, vOp{'D', vPool[r.below(len(vPool))], vPool[r.below(len(vPool))]})
+					default:
+						ops = append(ops, vOp{k: 'X'})
+						live = live[:0]
+					}
+				}
+			}
+			v.runCasePool(ops, vPool)
+		}
+		v.hist["extreme-random-cases"] = ne
 		v.hist["exhaustive-cases"] = exh
 		v.hist["random-cases"] = nr
 		v.hist["disjoint-cases"] = nd
